@@ -169,10 +169,10 @@ def check_c49(ctx):
     for r in runs:
         d = dict(defs, **r)
         ctx.cov["constants"]["Actions(%s,%s)" % (r["KEYS"], r["MAXPAIRS"])] = d
-        ctx.tlc_must_pass(SPEC, "Actions", "Actions_MC.cfg", defines=d, timeout=1500)
-        g = ctx.tlc(SPEC, "GenActions", "Actions_Gen.cfg", defines=d, timeout=1500, count=False)
-        if not g.ok or not g.cases:
-            raise vlib.MachineryError("GenActions failed: %s %s" % (g.error or g.violation, g.out[-500:]))
+        # one TLC run: PostOK / Documented checked and the case printed in every enumerated state
+        g = ctx.tlc_must_pass(SPEC, "GenActions", "Actions_MC.cfg", defines=d, timeout=1500)
+        if not g.cases or len(g.cases) != g.distinct:
+            raise vlib.MachineryError("GenActions printed %d cases for %d states" % (len(g.cases), g.distinct))
         for c in g.cases:
             k = json.dumps(c, sort_keys=True)
             if k not in seen:
